@@ -44,6 +44,12 @@ claimed={
 "C14":dict(level_text="Coq proof that every request module passes the request through `authenticate` iff security is declared, of the placement call emitted per location kind, of what the extractor makes of each scheme kind, and that from_env constructs the variant of the FIRST strategy reading each credential from <SERVICE>_<NAME> (= SCREAMING(service)_SCREAMING(name)). lib.rs and every request module compared byte for byte with the real CLI over apiKey header/query/cookie, http bearer/basic, oauth2, anonymous-first requirement lists and awkward scheme names; syn-based oracle checks enum / match arms / from_env agreement.",
   design_ref="DESIGN.md 7 (C14)",
   note="The meaning of httpclient's header/query/cookie/bearer_auth/basic_auth builder calls is modelled (the crate is not available offline)."),
+"C03":dict(level_text="Coq proof that the request module builds its request from exactly three things — the operation's verb, make_url's URL and the printed plan of the operation's inputs — and that executing that plan against the modelled request builder yields, for EVERY choice of supplied optional inputs, exactly the expected query / header / cookie / body members under their exact OpenAPI names (`name[]` for array-valued query parameters), nothing else; for every operation that does not take the all-query `set_query(self.params)` shortcut, which is refuted in Coq and an open known finding (as is the wrapped non-object body). The plan AST is the one the emission model prints, and every request module is compared byte for byte with the real CLI's output.",
+  design_ref="DESIGN.md 7 (C03), Appendix A.2",
+  note="The semantics of httpclient's query/header/cookie/json/set_query is modelled from its API (crate unavailable offline) — trusted. URL placeholders: fixed b21d9c5; the format!/path substitution itself is not modelled beyond placeholder = argument name."),
+"C04":dict(level_text="Coq proofs at the level of one generated struct / enum, over a model of what serde derive does with the emitted attributes: every member travels under its exact OpenAPI name (identifier or rename) and only flattened allOf members have no key; component-named allOf members are flattened; a required non-nullable string/number/boolean/object member has neither Option nor default, so an instance lacking it is rejected; deserialise-then-serialise returns the same members up to omission of null/absent optional members and empty arrays; enum values travel as their exact strings and stay distinct. The field descriptions are the ones the emission model prints; every model file is compared byte for byte with the real CLI's output, and an oracle checks names/optionality against the abstract spec.",
+  design_ref="DESIGN.md 7 (C04), Appendix A.1",
+  note="PARTIAL: serde_derive's semantics is modelled (trusted), field values are carried as JSON (the codec of nested field types and the `with` adapters are outside this level: adapters are C19); no compiled round trip in the quick tier."),
 }
 m={"version":1,
  "setup_cmd":"./setup.sh",
